@@ -30,16 +30,16 @@ async function run(code, withHooks) {
   vm.createContext(ctx);
   let out;
   try {
-    vm.runInContext(code, ctx, { timeout: 2000 });
-    let v = vm.runInContext(driver, ctx, { timeout: 2000 });
+    vm.runInContext(code, ctx, { timeout: 8000 });
+    let v = vm.runInContext(driver, ctx, { timeout: 8000 });
     if (v && typeof v.then === 'function') {
       // a promise: settle it (bounded) and let pending microtasks / timers of the program run
       log.push('<promise returned>');
-      v = await Promise.race([v, new Promise((_, rej) => setTimeout(() => rej(new Error('oracle timeout')), 1500))]);
+      v = await Promise.race([v, new Promise((_, rej) => setTimeout(() => rej(Object.assign(new Error('oracle timeout'), { code: 'ERR_SCRIPT_EXECUTION_TIMEOUT' })), 6000))]);
       await new Promise((res) => setTimeout(res, 20));
     }
     out = 'ok ' + show(v);
-  } catch (e) { out = 'throw ' + (e && e.constructor ? e.constructor.name : typeof e); }
+  } catch (e) { out = (e && e.code === 'ERR_SCRIPT_EXECUTION_TIMEOUT') ? 'TIMEOUT' : 'throw ' + (e && e.constructor ? e.constructor.name : typeof e); }
   // names the program left on the global object (an undeclared injected temporary shows up here: node's vm accepts the
   // assignment even in strict mode)
   const globals = Object.keys(ctx).filter((k) => !['__log', '_ddiast', 'setTimeout', 'Promise'].includes(k)).sort();
@@ -56,14 +56,15 @@ async function prologueCheck() {
   const ctx1 = { __log: (x) => x, _ddiast: installed, setTimeout, Promise };
   vm.createContext(ctx1);
   let out1;
-  try { vm.runInContext(code, ctx1, { timeout: 2000 }); out1 = 'ok ' + show(vm.runInContext(driver, ctx1, { timeout: 2000 })); } catch (e) { out1 = 'throw ' + (e && e.constructor ? e.constructor.name : typeof e); }
+  try { vm.runInContext(code, ctx1, { timeout: 8000 }); out1 = 'ok ' + show(vm.runInContext(driver, ctx1, { timeout: 8000 })); } catch (e) { out1 = (e && e.code === 'ERR_SCRIPT_EXECUTION_TIMEOUT') ? 'TIMEOUT' : 'throw ' + (e && e.constructor ? e.constructor.name : typeof e); }
   if (ctx1._ddiast !== installed) problems.push('installed hook object was replaced');
   if (calls === 0) problems.push('installed hooks were never called');
   const ctx2 = { __log: (x) => x, setTimeout, Promise };
   vm.createContext(ctx2);
   let out2;
-  try { vm.runInContext(code, ctx2, { timeout: 2000 }); out2 = 'ok ' + show(vm.runInContext(driver, ctx2, { timeout: 2000 })); } catch (e) { out2 = 'throw ' + (e && e.constructor ? e.constructor.name : typeof e) + ' ' + (e && e.message); }
+  try { vm.runInContext(code, ctx2, { timeout: 8000 }); out2 = 'ok ' + show(vm.runInContext(driver, ctx2, { timeout: 8000 })); } catch (e) { out2 = (e && e.code === 'ERR_SCRIPT_EXECUTION_TIMEOUT') ? 'TIMEOUT' : 'throw ' + (e && e.constructor ? e.constructor.name : typeof e) + ' ' + (e && e.message); }
   const o = await run(fs.readFileSync(origFile, 'utf8'), false);
+  if (out1 === 'TIMEOUT' || out2 === 'TIMEOUT' || o.out === 'TIMEOUT') { console.log('PROLOGUE-UNDECIDED time limit of the oracle reached'); return; }
   if (out2 !== o.out) problems.push('without a tracer: ' + out2 + ' instead of ' + o.out);
   if (out1 !== o.out) problems.push('with a tracer: ' + out1 + ' instead of ' + o.out);
   console.log(problems.length ? 'PROLOGUE-WRONG ' + problems.join(' | ') : 'PROLOGUE-OK ' + out2);
@@ -75,6 +76,8 @@ const r = await run(fs.readFileSync(rewFile, 'utf8'), true);
 if (mode === 'hooks') {
   console.log(r.bad.length ? 'HOOK-ARGS-WRONG ' + r.bad.join(' | ') : 'HOOK-ARGS-OK');
 } else {
+  // a run that hit the oracle's own time limit (machine under load) decides nothing
+  if (o.out === 'TIMEOUT' || r.out === 'TIMEOUT') { console.log('EXEC-UNDECIDED time limit of the oracle reached'); return; }
   const sameGlobals = show(o.globals) === show(r.globals);
   const same = o.out === r.out && show(o.log) === show(r.log) && sameGlobals;
   console.log((same ? 'EXEC-SAME ' : 'EXEC-DIFFERS ') + 'original: ' + o.out + ' log=' + show(o.log) + ' rewritten: ' + r.out + ' log=' + show(r.log) + (sameGlobals ? '' : ' globals: ' + show(o.globals) + ' vs ' + show(r.globals)));
